@@ -276,4 +276,63 @@ theorem parseText_loop0_mono (t : Bytes) (start : Nat) (s s' : St) (lvl : Nat)
     | (simp [Generated.syntaxError] at h; done)
     | (simp only [Res.ok.injEq, Ctl.next.injEq] at h; obtain ⟨_, h⟩ := h; subst h; simp; try omega)))
 
+
+theorem strncmp0_two (t : Bytes) (e : Nat) (a b : UInt8) (he : e < t.length) (hb : b ≠ 0) :
+    ∃ d, peek t (e + 1) = .ok d ∧ strncmp0 (t.drop e) [a, b] 2 = (decide (t.getD e 0 = a) && decide (d = b)) := by
+  by_cases h1 : e + 1 < t.length
+  · refine ⟨t.getD (e + 1) 0, peek_lt h1, ?_⟩
+    have e1 : t.drop e = t[e] :: t[e + 1] :: t.drop (e + 2) := by
+      rw [List.drop_eq_getElem_cons he, List.drop_eq_getElem_cons h1]
+    have g0 : t.getD e 0 = t[e] := by simp [List.getD_eq_getElem?_getD, he]
+    have g1 : t.getD (e + 1) 0 = t[e + 1] := by simp [List.getD_eq_getElem?_getD, h1]
+    rw [g0, g1]
+    simp only [strncmp0]
+    rw [e1]
+    simp only [List.take_succ_cons, List.take_zero]
+    by_cases ha : t[e] = a <;> by_cases hb2 : t[e + 1] = b <;> simp [ha, hb2]
+  · have h2 : e + 1 = t.length := by omega
+    refine ⟨0, by rw [h2]; exact peek_len t, ?_⟩
+    have e1 : t.drop e = [t[e]] := by
+      rw [List.drop_eq_getElem_cons he, List.drop_of_length_le (by omega)]
+    simp only [strncmp0]
+    rw [e1]
+    have : ¬ (0 : UInt8) = b := fun h => hb h.symm
+    simp [this]
+
+def piK (t : Bytes) (f : Nat) (sp : Pos) : Ctl → Res Pos
+  | .next _ s => piInner t f sp s.pos
+  | .enter _ s _ => .ok s.pos
+  | .ret s => .ok s.pos
+
+theorem piStop_set : ∀ b : UInt8, Generated.parsePi_set0.contains b = isPiScanStop b := by
+  apply forall_byte; decide +kernel
+
+theorem piInner_translated (t : Bytes) (f : Nat) (sp p : Pos) (ce : Option Pos) (tok : Token) (tx : Bytes) :
+    piInner t (f + 1) sp p = (Generated.parsePi_loop0 t sp.line sp.ls sp.pos ⟨p, ce, tok, tx⟩).bind (piK t f sp) := by
+  simp only [piInner, Generated.parsePi_loop0]
+  cases h : cstr t p.pos with
+  | ok z =>
+    simp only [Res.ok_bind, strpbrk_eq _ _ piStop_set]
+    cases hk : idxOf isPiScanStop z with
+    | none => simp [Generated.syntaxError, Pos.col]
+    | some k =>
+      simp only []
+      obtain ⟨hp, rfl⟩ := cstr_ok h
+      obtain ⟨hk1, hk2, _⟩ := idxOf_some hk
+      simp only [List.length_drop] at hk1
+      have hget : (t.drop p.pos).getD k 0 = t.getD (p.pos + k) 0 := by
+        simp [List.getD_eq_getElem?_getD, List.getElem?_drop]
+      rw [hget] at hk2
+      have he : p.pos + k < t.length := by omega
+      obtain ⟨d, hd, hcmp⟩ := strncmp0_two t (p.pos + k) 63 62 he (by decide)
+      rw [peek_lt he, cstr_le (Nat.le_of_lt he)]
+      simp only [Res.ok_bind, hcmp, hd]
+      generalize t.getD (p.pos + k) 0 = c at hk2
+      have hc3 : c = 13 ∨ c = 10 ∨ c = 63 := by simpa [isPiScanStop, or_assoc] using hk2
+      rcases hc3 with rfl | rfl | rfl
+      · by_cases hd10 : d = 10 <;> simp [hd10, piK]
+      · simp [piK]
+      · by_cases hd62 : d = 62 <;> simp [hd62, piK]
+  | _ => simp
+
 end Nstd.Xml
